@@ -653,7 +653,7 @@ RxStrSplit(X, S, limV) ==
     IN  [R |-> X,
          v |-> IF IsZero(lim) THEN ArrV(<<>>)                               \* step 9
                ELSE IF D("D10_split_regexp_findall")
-               THEN ArrV(OttoSplitLoop(S, GoAll(X, S), 1, 0, IF limV.t = "undef" THEN -1 ELSE IntOf(lim), <<>>))
+               THEN ArrV(OttoSplitLoop(S, GoAll(X, S), 1, 0, IF limV.t = "undef" \/ lim.c # "int" THEN -1 ELSE lim.v, <<>>))
                ELSE IF Len(S) = 0                                           \* step 11
                THEN (IF RxMatchAt(C, X.P, 0).ok THEN ArrV(<<>>) ELSE ArrV(<<StrV(S)>>))
                ELSE ArrV(RxSplitLoop(C, X.P, lim, 0, 0, <<>>))]
